@@ -16,12 +16,14 @@ package c13
 // judged wedged only when it has not returned after boundMs (150 x the send timeout) AND the goroutine
 // running (*crdt).broadcast is parked in a select both then and a quarter of the bound later; a round
 // that is merely slow discards the execution (env_timeout).  After the script every replica must read
-// both committed updates and every scripted peer must have been handed both.
+// both committed updates and every scripted peer must have been handed both (if not yet, up to eight
+// more batches of ticks are granted first: the property says eventually).
 
 import (
 	"fmt"
 	"math/bits"
 	"strings"
+	"time"
 
 	"verif/mc/explore"
 )
@@ -118,18 +120,44 @@ func runStall(sl *slot, sc stallCase) (*failure, string, error) {
 		sl.drop()
 		return nil, "", errEnv
 	}
+	// "eventually": with a 40 ms send timeout a slow machine makes healthy calls time out too (they are
+	// repeated by the next tick) and lets a delayed delivery land after the observation; before judging,
+	// keep ticking - a lost update never arrives however often the nodes tick.
 	last := resp.Steps[len(resp.Steps)-1]
-	for i := 0; i < 2; i++ {
-		if rd := mkset(last.Reads[i]); rd != want {
-			return &failure{"committed-update-undelivered/after-round-with-unanswering-peers",
-				fmt.Sprintf("script [%s]: replica %d reads %v, committed updates are %v", sc, i, rd, want)}, "", nil
+	var f *failure
+	for attempt := 0; ; attempt++ {
+		f = nil
+		for i := 0; i < 2 && f == nil; i++ {
+			if rd := mkset(last.Reads[i]); rd != want {
+				f = &failure{"committed-update-undelivered/after-round-with-unanswering-peers",
+					fmt.Sprintf("script [%s]: replica %d reads %v, committed updates are %v", sc, i, rd, want)}
+			}
 		}
+		for k := 0; k < 2 && f == nil; k++ {
+			if missing := want &^ xgot[k]; missing != 0 {
+				f = &failure{"committed-update-undelivered/after-round-with-unanswering-peers",
+					fmt.Sprintf("script [%s]: scripted peer X%d was never handed %v although it answers again", sc, k, missing)}
+			}
+		}
+		if f == nil || attempt == 8 {
+			break
+		}
+		time.Sleep(250 * time.Millisecond)
+		more, err := sl.w.call(request{Op: "run", Moves: []mv{{Kind: "t", I: 0}, {Kind: "t", I: 1}, {Kind: "t", I: 0}, {Kind: "t", I: 1}}})
+		if err != nil || !more.OK || len(more.Steps) == 0 {
+			envErrors.Add(1)
+			sl.drop()
+			return nil, "", errEnv
+		}
+		for _, st := range more.Steps {
+			for n, l := range st.XLog {
+				xgot[st.XLogK[n]] |= mkset(l)
+			}
+		}
+		last = more.Steps[len(more.Steps)-1]
 	}
-	for k := 0; k < 2; k++ {
-		if missing := want &^ xgot[k]; missing != 0 {
-			return &failure{"committed-update-undelivered/after-round-with-unanswering-peers",
-				fmt.Sprintf("script [%s]: scripted peer X%d was never handed %v although it answers again", sc, k, missing)}, "", nil
-		}
+	if f != nil {
+		return f, "", nil
 	}
 	return nil, fmt.Sprintf("silent1=%s silent2=%s reads=%v,%v", maskName(sc.S1), maskName(sc.S2), mkset(last.Reads[0]), mkset(last.Reads[1])), nil
 }
